@@ -13,12 +13,13 @@ import pytenet as ptn
 
 ID = 'C06'
 LEVEL = 'model_checking'
-RULE = ('model x every L >= 1 with d^L <= bound x every parameter triple over {0,1,-1,g,-g\'} (formally-zero operators excluded); '
+RULE = ('model x every L >= 1 with d^L <= bound x every parameter triple over {0,1,-1,g,-g\',2^-27} (formally-zero operators excluded); '
         'Bose-Hubbard d in 1..4; fermionic linear operator: both types (all spellings), coefficient vectors real/complex/with zeros/every '
         'one-hot; non-trivial = L >= 2 and at least two non-zero parameters')
 BUDGET = {'quick': 400, 'thorough': 3600}
 G1, G2 = 0.7310585786300049, 1.618033988749895
-PVALS = [0.0, 1.0, -1.0, G1, -G2]
+TINY = 2.0 ** -27     # a very weak but non-zero coupling
+PVALS = [0.0, 1.0, -1.0, G1, -G2, TINY]
 
 SX = np.array([[0., 1.], [1., 0.]])
 SZ = np.array([[1., 0.], [0., -1.]])
